@@ -48,6 +48,7 @@ BASE = {
     'Labels': ['', 'l'],
     'UserSkipG': [],
     'ExtraQueries': [],
+    'DollarAdjacent': False,
     'Budget': 3, 'MaxDepth': 3, 'MaxSib': 3, 'MaxArgs': 3,
 }
 SETS = ['TextPool', 'MathTextPool', 'ComPool', 'CmdNames', 'EnvNames', 'ListNames', 'MEnvNames', 'VerbNames', 'VerbBodies',
@@ -68,6 +69,7 @@ def mc_docgen(d, name, pools, invariants, dump='GDump'):
     consts.append(' Leaves <- MCLeaves')
     for k in ('Budget', 'MaxDepth', 'MaxSib', 'MaxArgs'):
         consts.append(' %s = %d' % (k, p[k]))
+    consts.append(' DollarAdjacent = %s' % ('TRUE' if p['DollarAdjacent'] else 'FALSE'))
     cfg = ['SPECIFICATION GSpec', 'CONSTANTS'] + consts + ['INVARIANT ' + i for i in invariants]
     if dump:
         cfg.append('INVARIANT ' + dump)
